@@ -50,7 +50,7 @@ def collect_sets(ck, ctx):
     ctx["b"] = b
     ctx["tb"] = tb
     ctx["sets"] = sets
-    ck.floor("U0", len(sets), 10, "bitboard updates in by_performing_move (2 move, 1 ep, 1 capture, 2 promotion, 4 rook)")
+    ck.floor("U0", len(sets), 8, "bitboard updates in by_performing_move (2 move, 1 ep, 1 capture, 2 promotion, 2-4 rook)")
     # all updates go to one map, which is a clone of the current board's piece map, and the new Board is built from it
     maps = {s["map"] for s in sets}
     good = len(maps) == 1
@@ -163,6 +163,39 @@ def u1_rook_relocation(ck, ctx):
         ok_col = mover_color(col)
         f = file_const(s["square"])
         on_rank = any(is_call(x, "Square::rank") and mv_call(x[2][0], "origin") for x in walk(s["square"]))
+        if side is None and f is None and ok_col and on_rank:
+            # second form: `if let Some(side) = mv.castle_side()` with the files selected by `match side { King => (..), Queen => (..) }`
+            under_castle = any(c[0] == "discr" and mv_call(c[1], "castle_side") and tk == 1 for c, tk in s["guards"])
+            comp = [x for x in walk(s["square"]) if x[0] == "field" and x[1][0] == "var" and x[2] in ("0", "1")]
+            if under_castle and len(comp) == 1:
+                tb2 = ctx["tb"]
+                side_adt = ck.adt("weechess_core::moves::Side", "U1") if ck.prog.adt("weechess_core::moves::Side") else None
+                names = {}
+                for cand in ("weechess_core::moves::Side", "weechess_core::common::Side", "weechess_core::state::Side"):
+                    a_ = ck.prog.adt(cand)
+                    if a_:
+                        names = {v["discr"]: v["name"] for v in a_["variants"]}
+                if not names:
+                    for an, a_ in ck.prog.adts.items():
+                        if an.endswith("::Side") and an.startswith("weechess_core"):
+                            names = {v["discr"]: v["name"] for v in a_["variants"]}
+                resolved = 0
+                for d in tb2.d.defs.get(comp[0][1][1], []):
+                    if d[0] != "assign":
+                        continue
+                    tup = tb2.rvalue(d[3])
+                    if not (tup[0] == "agg" and tup[1] == "tuple"):
+                        continue
+                    fv = file_const(tup[2][int(comp[0][2])])
+                    sd = None
+                    for c, tk in guards_of(ck.prog, b, d[1], tb2):
+                        if c[0] == "discr" and c[1][0] == "field" and c[1][1][0] == "variant" and mv_call(c[1][1][1], "castle_side") and isinstance(tk, int) and not isinstance(tk, bool):
+                            sd = names.get(tk)
+                    if sd is not None and fv is not None:
+                        moves.setdefault(sd, {})[s["value"]] = fv
+                        resolved += 1
+                if resolved == 2:
+                    continue
         if side is None or not ok_col or f is None or not on_rank:
             ck.fail("U1.form", "rook@L%d" % s["line"], b.where(s["line"]), "rook update is not map[mover's rook].set(Square::from((mv.origin().rank(), File::X)), _) under is_castle(side)")
             continue
